@@ -100,6 +100,13 @@ theorem class_facts :
     [104, 116, 112, 115].all (fun n => cLetters.mem (Char.ofNat n)) = true := by
   decide
 
+/-- **table obligation**: labels and the TLD are closed under ASCII lower-casing, a label
+holds no dot, no host can be empty, `SPECIAL_HOSTS_RE` ends with `$` -/
+theorem label_facts :
+    allCls CharClass.lowerClosed labelRe = true ∧ allCls (fun C => C.avoids [46]) labelRe = true ∧
+    cT.lowerClosed = true ∧ nullable hostRe = false ∧
+    (spine SPECIAL_HOSTS_RE).getLast? = some .eos := by decide
+
 /-! ## `HTTP_PROTOCOL_RE` -/
 
 def hsp (i : Nat) : Re := (spine HTTP_PROTOCOL_RE)[i]?.getD .empty
